@@ -316,3 +316,68 @@ fn c14_exponentiation_and_powers() {
     { let z = F::ONE + F::NEG_ONE; cases += 1; if z.try_inverse().is_some() { bad.push("base field: 1 + (-1) has an inverse".into()); } }
     finish("c14_exponentiation_and_powers", cases, bad);
 }
+
+// C15: vanishing polynomial on a coset, first Lagrange polynomial, disjoint coset shifts, value-form helpers
+#[test]
+fn c15_cosets_and_zero_poly() {
+    use crate::cosets::get_unique_coset_shifts;
+    use crate::zero_poly_coset::ZeroPolyOnCoset;
+    let mut bad = Vec::new();
+    let mut cases = 0usize;
+    for n_log in 0..7usize { for rate_bits in 0..4usize {
+        let z = ZeroPolyOnCoset::<F>::new(n_log, rate_bits);
+        let lde_log = n_log + rate_bits;
+        let w = F::primitive_root_of_unity(lde_log);
+        let n = 1u64 << n_log;
+        for i in 0..(1usize << lde_log) {
+            let x = F::coset_shift() * w.exp_u64(i as u64);
+            let zh = x.exp_u64(n) - F::ONE;
+            cases += 1;
+            if z.eval(i) != zh { bad.push(format!("ZeroPolyOnCoset(2^{n_log}, rate 2^{rate_bits}).eval({i}) != x^n - 1")); break; }
+            if zh != F::ZERO && z.eval_inverse(i) * zh != F::ONE { bad.push(format!("ZeroPolyOnCoset(2^{n_log}, rate 2^{rate_bits}).eval_inverse({i}) is not the inverse")); break; }
+            if x != F::ONE { let l0 = zh * (F::from_canonical_u64(n) * (x - F::ONE)).inverse(); if z.eval_l_0(i, x) != l0 { bad.push(format!("ZeroPolyOnCoset(2^{n_log}, rate 2^{rate_bits}).eval_l_0({i}) wrong")); break; } }
+        }
+    } }
+    // L_0 really is the first Lagrange polynomial: it is the interpolant of (1, 0, ..., 0) evaluated off the domain
+    for n_log in 1..6usize {
+        let n = 1usize << n_log;
+        let l0 = PolynomialValues::<F>::selector(n, 0).ifft();
+        let z = ZeroPolyOnCoset::<F>::new(n_log, 2);
+        let w = F::primitive_root_of_unity(n_log + 2);
+        for i in [1usize, 2, 5, (1 << (n_log + 2)) - 1] { let x = F::coset_shift() * w.exp_u64(i as u64); cases += 1; if z.eval_l_0(i, x) != l0.eval(x) { bad.push(format!("eval_l_0 differs from the interpolated first Lagrange polynomial at size {n}")); break; } }
+    }
+    // coset shifts: k_i * H pairwise disjoint  <=>  (k_i / k_j)^|H| != 1
+    for sg_log in 0..8usize { for num in [1usize, 2, 3, 8, 80, 135] {
+        let size = 1usize << sg_log;
+        let ks = get_unique_coset_shifts::<F>(size, num);
+        cases += 1;
+        if ks.len() != num { bad.push(format!("get_unique_coset_shifts({size}, {num}) returns {} shifts", ks.len())); continue; }
+        'outer: for i in 0..num { if ks[i] == F::ZERO { bad.push(format!("get_unique_coset_shifts({size}, {num}): shift {i} is zero")); break; }
+            for j in 0..i { if (ks[i] * ks[j].inverse()).exp_u64(size as u64) == F::ONE { bad.push(format!("get_unique_coset_shifts({size}, {num}): cosets {j} and {i} coincide")); break 'outer; } } }
+    } }
+    // value-form helpers
+    let mut s = 0x1234_5678_9ABC_DEF0u64 ^ seed();
+    let mut rnd = || { s ^= s << 13; s ^= s >> 7; s ^= s << 17; F::from_noncanonical_u64(s) };
+    for lg in 0..7usize {
+        let n = 1usize << lg;
+        let vals: Vec<F> = (0..n).map(|_| rnd()).collect();
+        let pv = PolynomialValues::new(vals.clone());
+        let coeffs = pv.clone().ifft();
+        for rb in 0..3usize {
+            cases += 2;
+            let l = pv.clone().lde(rb);
+            let g = F::primitive_root_of_unity(lg + rb);
+            if (0..n << rb).any(|i| l.values[i] != coeffs.eval(g.exp_u64(i as u64))) { bad.push(format!("PolynomialValues::lde({rb}) at size {n} is not the evaluation of the interpolant on the larger subgroup")); }
+            let lc = pv.clone().lde_onto_coset(rb);
+            if (0..n << rb).any(|i| lc.values[i] != coeffs.eval(F::coset_shift() * g.exp_u64(i as u64))) { bad.push(format!("PolynomialValues::lde_onto_coset({rb}) at size {n} is not the evaluation on the coset")); }
+        }
+        let other: Vec<F> = (0..n).map(|_| rnd()).collect();
+        let wgt = rnd();
+        let mut acc = pv.clone(); acc.add_assign_scaled(&PolynomialValues::new(other.clone()), wgt); cases += 1;
+        if (0..n).any(|i| acc.values[i] != vals[i] + other[i] * wgt) { bad.push(format!("add_assign_scaled wrong at size {n}")); }
+        cases += 1;
+        let x = rnd(); let pows: Vec<F> = x.powers().take(n).collect();
+        if coeffs.eval_with_powers(&pows[1..].to_vec()) != coeffs.eval(x) && n > 0 { bad.push(format!("eval_with_powers differs from eval at size {n}")); }
+    }
+    finish("c15_cosets_and_zero_poly", cases, bad);
+}
